@@ -34,6 +34,10 @@ type c13node struct {
 	chans []*gomavlib.Channel
 }
 
+// c13WriteTimeout != 0: the nodes of the next scenarios are configured with this write timeout (custom transports know no
+// deadlines, but the option is there)
+var c13WriteTimeout time.Duration
+
 func c13start(rep *vh.Report, k int, v1 bool, signed bool) *c13node {
 	n := &c13node{}
 	var eps []gomavlib.EndpointConf
@@ -46,7 +50,7 @@ func c13start(rep *vh.Report, k int, v1 bool, signed bool) *c13node {
 	if v1 {
 		ver = gomavlib.V1
 	}
-	n.node = &gomavlib.Node{Endpoints: eps, Dialect: testDialect, OutVersion: ver, OutSystemID: 21, HeartbeatDisable: true}
+	n.node = &gomavlib.Node{Endpoints: eps, Dialect: testDialect, OutVersion: ver, OutSystemID: 21, HeartbeatDisable: true, WriteTimeout: c13WriteTimeout}
 	if signed && !v1 {
 		n.node.OutKey = frame.NewV2Key([]byte("0123456789abcdef0123456789abcdef"))
 	}
@@ -150,6 +154,13 @@ func c13stall(rep *vh.Report, seed uint64, idx int, j int) {
 	r := vh.Sub(seed, fmt.Sprintf("c13-stall-%d", idx))
 	k := 2 + r.Intn(3)
 	hookReset(r.U64(), true, false)
+	// every fourth run: a short write timeout is configured and the stall outlasts it several times
+	longStall := time.Duration(0)
+	if idx%4 == 3 {
+		c13WriteTimeout = time.Duration(60+r.Intn(60)) * time.Millisecond
+		longStall = 4 * c13WriteTimeout
+		defer func() { c13WriteTimeout = 0 }()
+	}
 	n := c13start(rep, k, false, idx%2 == 1)
 	if n == nil {
 		return
@@ -216,6 +227,70 @@ func c13stall(rep *vh.Report, seed uint64, idx int, j int) {
 				map[string]interface{}{"events_before": evBefore, "events_now": n.cons.nEvents(), "fed": want})
 		}
 	}
+	// addressed writes to the stalled channel (its queue is full) must not hold up a write to a healthy one: the marker
+	// written after 60 of them must come out as promptly as a marker written alone (gross delays only: >= 600 ms and
+	// >= 50 x the lone marker, seen twice in a row)
+	if len(healthy) > 0 && n.chans[stalled].VerifBacklog() >= 60 {
+		h := healthy[0]
+		probe := func(nTo int, tag uint64) time.Duration {
+			t0 := time.Now()
+			for i := 0; i < nTo; i++ {
+				_ = n.node.WriteMessageTo(n.chans[stalled], &MessageVfUid{Uid: uint64(fam+4)<<56 | uint64(i)})
+			}
+			uid := uint64(fam+5)<<56 | tag
+			_ = n.node.WriteMessageTo(n.chans[h], &MessageVfUid{Uid: uid})
+			for time.Since(t0) < 15*time.Second {
+				a, _ := wireUIDs(n.trs[h], fam+5)
+				for _, u := range a {
+					if u == uid {
+						return time.Since(t0)
+					}
+				}
+				time.Sleep(300 * time.Microsecond)
+			}
+			return time.Since(t0)
+		}
+		slow := 0
+		var lone, after time.Duration
+		for try := 0; try < 2; try++ {
+			lone = probe(0, uint64(10+try))
+			after = probe(60, uint64(20+try))
+			floor := lone
+			if floor < time.Millisecond {
+				floor = time.Millisecond
+			}
+			if after >= 600*time.Millisecond && after >= 50*floor {
+				slow++
+			} else {
+				break
+			}
+		}
+		rep.Count("stall_latency_probes", 1)
+		if slow == 2 {
+			rep.Violation("what=isolation:delay ep=custom", fmt.Sprintf("60 addressed writes to the stalled channel delayed a write to a healthy channel by %v (a write alone took %v), twice in a row", after.Round(time.Millisecond), lone.Round(100*time.Microsecond)),
+				map[string]interface{}{"stalled": stalled, "healthy": h, "channels": k})
+		}
+	}
+	if longStall > 0 {
+		// the stall outlasts the configured write timeout several times while writes keep arriving
+		t0 := time.Now()
+		for i := 0; time.Since(t0) < longStall; i++ {
+			_ = n.node.WriteMessageAll(&MessageVfUid{Uid: uint64(fam+2)<<56 | uint64(i)})
+			if i%5 == 0 {
+				_ = n.node.WriteMessageTo(n.chans[stalled], &MessageVfUid{Uid: uint64(fam+3)<<56 | uint64(i)})
+			}
+			time.Sleep(2 * time.Millisecond)
+		}
+		rep.Count("stall_runs_longer_than_write_timeout", 1)
+	}
+	stalledClosed := func() bool {
+		for _, ci := range n.cons.allChannels() {
+			if sn := n.cons.snapshot(ci); sn.Ch == n.chans[stalled] && sn.State == 2 {
+				return true
+			}
+		}
+		return false
+	}
 	accBefore, _ := wireUIDs(n.trs[stalled], fam)
 	// release: the stalled channel emits an order-preserving subsequence, at most 64 queued + 1 in flight of the stall period
 	n.trs[stalled].UnblockWrites()
@@ -228,7 +303,7 @@ func c13stall(rep *vh.Report, seed uint64, idx int, j int) {
 	if duringStall > 65 {
 		rep.Violation("what=backlog ep=custom", fmt.Sprintf("the stalled channel buffered %d items (bound: 64 queued + 1 in flight)", duringStall), nil)
 	}
-	if len(acc) == 0 {
+	if len(acc) == 0 && !stalledClosed() {
 		rep.Violation("what=backlog ep=custom", "after release the stalled channel emitted nothing", nil)
 	}
 	rep.Count("stall_backlog_emitted", duringStall)
@@ -245,8 +320,13 @@ func c13stall(rep *vh.Report, seed uint64, idx int, j int) {
 			}
 			return c >= 30
 		}, func() int64 { return int64(tr.NWrites()) }, 1500*time.Millisecond)
+		if !ok && ti == stalled && stalledClosed() {
+			rep.Count("failure_led_to_close_event", 1)
+			continue
+		}
 		if !ok {
-			rep.Violation("what=silent-dead:stall ep=custom", fmt.Sprintf("after the stall was released channel %d no longer emits later writes", ti), nil)
+			rep.Violation("what=silent-dead:stall ep=custom", fmt.Sprintf("after the stall was released channel %d no longer emits later writes", ti),
+				map[string]interface{}{"stalled": stalled, "stall_longer_than_write_timeout": longStall > 0, "write_timeout_ms": c13WriteTimeout.Milliseconds()})
 		}
 	}
 	if !safeClose(rep, n.node) {
